@@ -1,4 +1,5 @@
 mod clockgen;
+mod craft;
 mod engine;
 mod gens;
 mod minimise;
